@@ -145,7 +145,7 @@ func specs() []*spec {
 			ID: "C02", Harness: "crdtsim", Level: "exploration",
 			Batch: 1, QuickSecs: 45, ThoroughSecs: 900, PlanTimeoutS: 60,
 			DetSamples: 10, DetThreshold: 0.9,
-			RequiredProbes: []string{"observations", "queue_full", "bursts", "local_order_checked", "convergence_checked", "age_limit_checked", "pending_after_heal_checked", "tracker_handoffs_checked", "datastore_write_failed", "partition", "untrusted_publisher_checked"},
+			RequiredProbes: []string{"observations", "queue_full", "bursts", "local_order_checked", "convergence_checked", "age_limit_checked", "batching_half_configured", "trusted_update_through_untrusted_relay", "pending_after_heal_checked", "tracker_handoffs_checked", "datastore_write_failed", "partition", "untrusted_publisher_checked"},
 			Rule:           "plan = 1-4 real CRDT replicas with ipfscluster.newPubSub routers (batching disabled | size-triggered 1-8 | age-triggered 50 ms-5 s, queue 1-64, rebroadcast 1-30 s, trust-all | explicit lists | one untrusted replica, single-writer or contended CIDs) + 8-100 steps: LogPin/LogUnpin (every second one with a request context that ends as soon as the call returned), bursts of 2-10 operations in one instant mixing pin and unpin of the same CID (same batch window, queue overflow), partitions, heals, resets, latency skews, datastore write failures placed in the middle of a batch (skip k writes, fail n), Trust/Distrust; then everything is healed and left quiet for 2 x rebroadcast + 30 s. Non-trivial = >=1 operation and >=1 fault fired; distinct = distinct canonical trace digest.",
 			Real:           []string{"consensus/crdt (Consensus: LogPin/LogUnpin, batchWorker, hooks, topic validator, Trust/Distrust)", "state/dsstate (plain and batching)", "go-ds-crdt", "ipfs-lite + bitswap", "go-libp2p-pubsub gossipsub (signed, strict verification)", "go-libp2p-kad-dht dual DHT", "gorpc, libp2p basic host on mocknet"},
 			Model:          []string{"PinTracker and PeerMonitor RPC services (recording)", "fault-injecting in-memory datastore"},
@@ -154,7 +154,7 @@ func specs() []*spec {
 		{
 			ID: "C13", Harness: "addersim", Level: "exploration",
 			Batch: 20, QuickSecs: 40, ThoroughSecs: 900, PlanTimeoutS: 60,
-			RequiredProbes: []string{"adds_succeeded", "adds_failed", "content_read_back", "single_pin_checked", "sharded_pins_checked", "importer_reference_checked", "tree_reference_checked", "default_factors_resolved", "indirect_shard_dag", "blockput_ipfs_error", "destination_partitioned", "cluster_pin_failed", "block_allocate_failed"},
+			RequiredProbes: []string{"adds_succeeded", "adds_failed", "content_read_back", "single_pin_checked", "sharded_pins_checked", "importer_reference_checked", "tree_reference_checked", "cidv1_without_raw_leaves", "add_asked_in_direct_mode", "default_factors_resolved", "indirect_shard_dag", "blockput_ipfs_error", "destination_partitioned", "cluster_pin_failed", "block_allocate_failed"},
 			Rule:           "plan = one add of a generated file tree (empty files, sizes at chunk-1/chunk/chunk+1/multiples, nested and wide directories, hidden entries, occasionally > 5984 blocks in one shard) with generated import parameters (size-N and rabin chunkers, balanced|trickle, raw leaves, CID version, sha2-256|sha2-512|blake2b-256, wrap, hidden, local, factor pair, sharding with shard sizes from 3 blocks to everything) on 1-4 destination peers, with faults: BlockPut fails at block k on destination d as an IPFS error, or the link to d is cut at block k (RPC error), the same block fails everywhere, the k-th BlockAllocate or Cluster.Pin fails. In fault-free plans every block must also sit on every peer of the allocation its pin (or its shard) names. Non-trivial = the add ran and >=1 fault fired; distinct = distinct canonical trace digest.",
 			Real:           []string{"adder (Adder.FromFiles, format selection, wrap, Finalize)", "adder/ipfsadd (importer pipeline over MFS)", "adder/single and adder/sharding DAG services (ingestBlock, flushCurrentShard, shard.Flush, makeDAG)", "adder.BlockAdder multi-destination put via gorpc MultiCall over libp2p basic hosts on mocknet", "go-unixfs importer / reader, go-merkledag, go-ipld-cbor (reference and read-back)"},
 			Model:          []string{"Cluster.BlockAllocate / Cluster.Pin RPC service (recording, can fail)", "IPFSConnector.BlockPut RPC service per destination (per-destination block stores, per-(block,destination) fault)"},
@@ -165,7 +165,7 @@ func specs() []*spec {
 			Parts: []part{{Harness: "clustersim", Share: 0.6, Batch: 1}, {Harness: "crdtsim", Share: 0.4, Batch: 1}},
 			Batch: 1, QuickSecs: 50, ThoroughSecs: 600, PlanTimeoutS: 120,
 			DetSamples: 8, DetThreshold: 0.9,
-			RequiredProbes: []string{"walks", "refusals", "allowed_calls", "trust_changes", "endpoints_found", "untrusted_publisher_checked", "add_peer_calls", "concurrent_trust_changes"},
+			RequiredProbes: []string{"walks", "refusals", "allowed_calls", "trust_changes", "endpoints_found", "untrusted_publisher_checked", "add_peer_calls", "concurrent_trust_changes", "trusted_update_through_untrusted_relay"},
 			Rule:           "part 1 (clustersim): a real Cluster with a real Raft or CRDT consensus component (trust config: Raft | CRDT explicit list | empty list | trust-all, loaded through the JSON section or through defaults + CLUSTER_CRDT_TRUSTEDPEERS; tracing on or off) is called over libp2p by real gorpc clients; every RPC endpoint found by reflection over the five service types x {self, peer1, peer2} is called in a plan-chosen order (a complete walk of the table, repeated after plan-chosen Trust/Distrust calls) and each outcome is compared with what the statement dictates (untrusted: only identity, version and the join handshake; local-only endpoints refused to every remote caller; self never refused; refused means no effect on tracker, IPFS, blocks or pinset). part 2 (crdtsim): 2-4 CRDT replicas whose pubsub routers come from ipfscluster.newPubSub; one of them, which nobody trusts, publishes pins and unpins under partitions and latency skews, in a third of the plans without signatures and naming a trusted replica as author; its updates must never show up at a replica that never trusted it. Non-trivial = >=1 call; distinct = distinct canonical trace digest.",
 			Real:           []string{"ipfscluster.Cluster RPC server, authorisation function and default RPC policy", "consensus/raft and consensus/crdt IsTrustedPeer/Trust/Distrust, crdt pubsub topic validator", "go-libp2p-gorpc client/server over libp2p basic hosts on mocknet", "go-libp2p-pubsub (signed), go-ds-crdt"},
 			Model:          []string{"tracker, IPFS connector, monitor, informer behind the target (recording)", "specification table of peer-to-peer vs local-only endpoints written from the statement (harness/clustersim/c07.go)"},
@@ -185,7 +185,7 @@ func specs() []*spec {
 			ID: "C18", Harness: "racesim", Level: "exploration", Race: true, CrashIsViolation: true,
 			Batch: 1, QuickSecs: 60, ThoroughSecs: 900, PlanTimeoutS: 120,
 			DetSamples: 8, DetThreshold: 0.9,
-			RequiredProbes: []string{"all_callers_returned", "shutdown_while_in_use", "status_lists_checked", "daemon_failures_scripted", "metric_lists_checked", "alerts_read", "alert_lists_checked", "alerts_injected", "pinsets_checked"},
+			RequiredProbes: []string{"all_callers_returned", "shutdown_while_in_use", "shutdown_by_two_callers_at_once", "status_lists_checked", "daemon_failures_scripted", "metric_lists_checked", "alerts_read", "alert_lists_checked", "alerts_injected", "pinsets_checked"},
 			Rule:           "plan = one of five worlds (pin tracker + operation table over a model daemon; metrics store + checker + pubsub monitor; a whole Cluster with model consensus/monitor/tracker and the real disk and numpin informers; the two informers alone; the CRDT consensus component with batching) + 2-5 caller goroutines each running a plan-given sequence of 8-70 public calls (track/untrack/status/statusall/recover/recoverall; log/publish/latest/all/check/alerts/remove; inject alerts (bursts above the 1000-entry reset)/Alerts()/pin/unpin/status/peers/id/sync; GetMetric; LogPin/LogUnpin/list/trust/distrust) with pauses of 0-400 ms so that most calls land in the same instants, and in 60% of the plans a Shutdown issued by one caller while the others go on. Lock acquisitions are seeded scheduling points with a per-plan probability of 0-60 % (runtime overlay, knob lock_yield). Built with the race detector (checkptr off). Violation = race report, panic on a goroutine of the code under test, Shutdown or callers stuck for minutes of simulated time, or a structurally torn result (empty or duplicated entries in status, metric, alert or pinset lists). Non-trivial = >=1 call; distinct = distinct canonical trace digest.",
 			Real:           []string{"pintracker/stateless + optracker", "monitor/metrics Store, Window, Checker; monitor/pubsubmon over gossipsub", "ipfscluster.Cluster facade (Alerts, alertsHandler, Pin/Unpin, Status*, Peers, ID, StateSync, RecoverAllLocal, Shutdown, publish loops)", "informer/disk, informer/numpin", "consensus/crdt (batching queue, Trust/Distrust, Shutdown), go-ds-crdt", "Go race detector (happens-before, independent of the interleaving that ran)"},
 			Model:          []string{"IPFS daemon and connector, consensus/monitor/tracker behind the Cluster facade (models, internally locked)"},
